@@ -8,6 +8,8 @@ import (
 
 var registry = map[string]core.Harness{
 	"C03": C03{},
+	"C04": C04{},
+	"C10": C10{},
 }
 
 func TestSim(t *testing.T) { core.WorkerMain(t, registry) }
